@@ -35,7 +35,12 @@ fn any_state(cap_s: u64) -> RttEstimator {
     } else {
         RttState::Subsequent { rto, srtt: any_dur(cap_s), rttvar: any_dur(cap_s) }
     };
-    RttEstimator { state }
+    RttEstimator {
+        state,
+        // the field exists only in test builds, i.e. in native concrete playback (cfg(kani) + cfg(test))
+        #[cfg(test)]
+        forced_timeout: None,
+    }
 }
 
 fn inv(e: &RttEstimator, cap_s: u64) -> bool {
